@@ -861,19 +861,22 @@ def rule_k12_tables(rep, funcs):
                 rep.fail("K12-DECODE@%s#%d" % (qn, code),
                          "%s: code %d decodes to %s, documented %s" % (qn, code, sorted(o), exp))
         if k0 is not None:
-            it0 = make_interp(funcs, index, k0_const=0)
+            # no stiffness requested: K[0] = 0, or 100 when the speed of sound is requested as well (Ke = K[0] - 100 above 50)
+            for k00 in (0, 100):
+                it0 = make_interp(funcs, index, k0_const=k00)
 
-            def run_cell0(c):
-                it0.cell = c
-                return frozenset(ename(o.get("__ret")) for o in it0.run(f, {}))
-            cells0 = partition(run_cell0)
-            bad = [(c, o) for c, o in cells0 if "C_TRUESDELL" in o]
-            rep.count("K[1]/K[2] code obligations")
-            if bad:
-                rep.fail("K12-DECODE@%s#no-stiffness" % qn,
-                         "%s: with K[0]=0 (no stiffness requested) K[2] in %s is rejected as invalid" % (qn, bad[0][0]))
-            else:
-                rep.ok("%s: K[2] is ignored when no stiffness is requested (K[0]=0)" % qn)
+                def run_cell0(c, it0=it0):
+                    it0.cell = c
+                    return frozenset(ename(o.get("__ret")) for o in it0.run(f, {}))
+                cells0 = partition(run_cell0)
+                bad = [(c, o) for c, o in cells0 if "C_TRUESDELL" in o]
+                rep.count("K[1]/K[2] code obligations")
+                if bad:
+                    rep.fail("K12-DECODE@%s#no-stiffness-K0=%d" % (qn, k00),
+                             "%s: with K[0]=%d (no stiffness requested%s) K[2] in %s is rejected as invalid although it is documented as "
+                             "meaningless for such a request: the call fails with -1" % (qn, k00, ", speed of sound requested" if k00 else "", bad[0][0]))
+                else:
+                    rep.ok("%s: K[2] is ignored when no stiffness is requested (K[0]=%d)" % (qn, k00))
 
 
 # -------------------------------------------------- invalid code -> no write
